@@ -316,8 +316,8 @@ def get_env(cfgname):
     return _ENVS[cfgname]
 
 
-class _Timeout(Exception):
-    pass
+class _Timeout(BaseException):
+    """not an Exception: constant folding catches Exception and would swallow the guard"""
 
 
 def _alarm(sig, frm):
@@ -333,8 +333,8 @@ def load_outcome(cfgname, src):
     # with a generous wall-clock backstop
     signal.signal(signal.SIGVTALRM, _alarm)
     signal.signal(signal.SIGALRM, _alarm)
-    signal.setitimer(signal.ITIMER_VIRTUAL, 5.0)
-    signal.setitimer(signal.ITIMER_REAL, 120.0)
+    signal.setitimer(signal.ITIMER_VIRTUAL, 5.0, 1.0)      # re-fires: a handler that swallows it does not disarm the guard
+    signal.setitimer(signal.ITIMER_REAL, 120.0, 5.0)
     try:
         try:
             if cfgname == "named":
@@ -377,6 +377,11 @@ def load_outcome(cfgname, src):
 
 
 def _work(chunk):
+    import resource
+    import warnings
+    warnings.simplefilter("ignore")      # SyntaxWarning of the Python compiler on folded nonsense such as 1[0]
+    # a folded constant can ask for terabytes: fail with MemoryError instead of taking the machine down
+    resource.setrlimit(resource.RLIMIT_AS, (6 * 2 ** 30, 6 * 2 ** 30))
     out = []
     for cfgname, src in chunk:
         w = load_outcome(cfgname, src)
@@ -394,7 +399,7 @@ def classify(src, what):
         return "C01:indentation-depth-limit"
     if "Exceeds the limit" in what and "integer string conversion" in what:
         return "C01:integer-constant-beyond-int-str-digit-limit"
-    if "did not finish" in what and re.search(r"""['"\])]\s*\*\s*\d+\s*\*\*\s*\d+""", src):
+    if "did not finish" in what and re.search(r"\d+\s*\*\*\s*\d+", src):
         return "C01:constant-folding-materialises-a-huge-sequence"
     if ("duplicate argument" in what or "keyword argument repeated" in what) and "\ufb01" in src:
         return "C01:nfkc-colliding-identifiers-in-one-parameter-or-keyword-list"
@@ -421,6 +426,7 @@ def mutate(r, src):
 
 PROBES = [
     ("default", "{{ 'a'*10**8 }}"),       # known finding C01-folding-blowup
+    ("default", "{{ [1]|slice(10**400)|list }}"),
     ("default", "{% macro m(a, a) %}{% endmacro %}"),
     ("default", "{{ f(a=1, a=2) }}"),
     ("default", "{% call(a, a) m() %}{% endcall %}"),
@@ -572,9 +578,87 @@ def oracle(ctx):
                         work.append((cfgname, w % inner))
                         n_res += 1
     ctx.count("oracle_engine_keyword_names", n_res)
+    # (ix) constant expressions: folding runs operators, subscripts, attribute lookups, filters and tests on
+    # constants at load time; whatever they raise (KeyError, IndexError, ZeroDivisionError, OverflowError,
+    # LookupError, UnicodeError, ...) must not escape from loading.  Exhaustive pairs over an operand alphabet.
+    OPER = ["1", "0", "-1", "2.5", "1e308", "'a'", "'%(a)s'", "'%d'", "'%s %s'", "[]", "[1]", "{}", "{'a': 1}", "()", "none",
+            "true", "10**400", "'\\ud800'", "[[]]", "(1, 'a')", "'{}'", "{1: 2}"]
+    BINOPS = ["+", "-", "*", "/", "//", "%", "**", "~", "in", "not in", "==", "<", "and", "or"]
+    FORMS = ["%s[%s]", "%s[%s:]", "%s[::%s]", "%s.get(%s)", "%s|int(%s)", "%s|float(%s)", "%s|round(%s)", "%s|center(%s)", "%s|join(%s)",
+             "%s|format(%s)", "%s|batch(%s)|list", "%s|slice(%s)|list", "%s|indent(%s)", "%s|truncate(%s)", "%s|replace(%s, 'x')",
+             "%s|default(%s)", "%s|attr(%s)", "%s|map(%s)|list", "%s|sort(attribute=%s)", "%s|sum(start=%s)", "%s|max(default=%s)",
+             "%s|wordwrap(%s)", "%s|dictsort(by=%s)", "%s|unique(attribute=%s)|list", "%s|groupby(%s)|list", "%s|selectattr(%s)|list",
+             "%s|xmlattr(%s)", "%s|tojson(%s)", "%s|urlize(%s)", "%s|filesizeformat(%s)", "%s|items|list + %s",
+             "%s is divisibleby %s", "%s is in %s", "%s is lt %s", "%s is sameas %s", "%s is eq %s", "%s.x(%s)", "%s(%s)",
+             "%s if %s", "range(%s, %s)|list", "dict(a=%s, **%s)", "cycler(%s, %s).next()", "'%%s'|format(%s, %s)", "[%s, %s]|sort",
+             "{%s: %s}", "[%s, %s]|sum", "[%s, %s]|max", "[%s, %s]|join", "(%s, %s)|first|abs", "[%s, %s]|unique|list", "{'k': %s}|dictsort(reverse=%s)"]
+    UNFORMS = ["-%s", "+%s", "not %s", "%s|abs", "%s|first", "%s|last", "%s|length", "%s|list", "%s|sum", "%s|min", "%s|sort", "%s|int", "%s|float",
+               "%s|string", "%s|urlencode", "%s|tojson", "%s|items|list", "%s|dictsort", "%s|upper", "%s|title", "%s|trim", "%s|striptags",
+               "%s|escape", "%s|e|forceescape", "%s|safe", "%s|filesizeformat", "%s|pprint", "%s|random", "%s|reverse|list", "%s|wordcount",
+               "%s|xmlattr", "%s|capitalize", "%s.a", "%s.real", "%s[0]", "%s()", "%s is odd", "%s is mapping", "%s is callable", "%s|center",
+               "%s|unique|list", "%s|map('int')|list", "%s|select|list", "%s|batch(0)|list", "%s|round(1, 'ceil')"]
+    n_const = 0
+    const_cfgs = ("default", "sandbox") if ctx.tier == "quick" else ("default", "sandbox", "async", "ext")
+    if ctx.tier == "quick":
+        OPER = [o for i, o in enumerate(OPER) if i % 2 == 0 or o in ("'%(a)s'", "{}", "10**400")]
+    for a in OPER:
+        for f in UNFORMS:
+            for cfgname in const_cfgs:
+                work.append((cfgname, "{{ " + (f % a) + " }}"))
+                n_const += 1
+        for b in OPER:
+            exprs = [f"{a} {op} {b}" for op in BINOPS] + [f % (a, b) for f in FORMS]
+            for ei, e in enumerate(exprs):
+                if "slice(10**400)" in e and a != "[1]":
+                    continue        # one witness of the recorded folding blow-up is enough (5 s of CPU each)
+                for cfgname in (const_cfgs if ctx.tier != "quick" else (const_cfgs[ei % 2],)):
+                    work.append((cfgname, "{{ " + e + " }}"))
+                    n_const += 1
+            work.append(("default", "{% set v = " + exprs[(len(a) * 7 + len(b)) % 7] + " %}"))
+            work.append(("default", "{% autoescape true %}{{ " + a + " ~ " + b + " }}{% endautoescape %}{% if " + a + " % " + b + " %}{% endif %}"))
+            n_const += 2
+    ctx.count("oracle_constant_expressions", n_const)
+    # (x) a name that occurs nowhere else, in every position of the grammar that holds an expression, inside
+    # every kind of frame: symbol analysis (idtracking) has to know every name code generation resolves
+    POS = ["{{ %s }}", "{{ f(%s) }}", "{{ f(k=%s) }}", "{{ f(*%s) }}", "{{ f(**%s) }}", "{{ x|f(%s) }}", "{{ x|f(k=%s) }}", "{{ x|f(*%s) }}",
+           "{{ x is f(%s) }}", "{{ x[%s] }}", "{{ x[%s:] }}", "{{ x[:%s] }}", "{{ x[::%s] }}", "{{ %s.a }}", "{{ %s[0] }}", "{{ %s() }}",
+           "{{ [%s] }}", "{{ (%s, 1) }}", "{{ {%s: 1} }}", "{{ {1: %s} }}", "{{ 1 if %s }}", "{{ %s if x else 2 }}", "{{ 1 if x else %s }}",
+           "{{ x < %s }}", "{{ x ~ %s }}", "{{ x and %s }}", "{{ not %s }}", "{{ -%s }}", "{{ x in %s }}", "{{ x ** %s }}",
+           "{%% if %s %%}{%% endif %%}", "{%% if x %%}{%% elif %s %%}{%% endif %%}", "{%% for i in %s %%}{%% endfor %%}",
+           "{%% for i in x if %s %%}{%% endfor %%}", "{%% for i in x recursive %%}{{ loop(%s) }}{%% endfor %%}",
+           "{%% for i in x %%}{%% else %%}{{ %s }}{%% endfor %%}", "{%% set v = %s %%}", "{%% set v, w = %s %%}", "{%% set ns.a = %s %%}",
+           "{%% set v | f(%s) %%}{%% endset %%}", "{%% set v | f(k=%s) %%}{%% endset %%}", "{%% filter f(%s) %%}{%% endfilter %%}",
+           "{%% filter f(k=%s) %%}{%% endfilter %%}", "{%% with v = %s %%}{%% endwith %%}", "{%% with v = 1, w = %s %%}{{ w }}{%% endwith %%}",
+           "{%% include %s %%}", "{%% include [%s, 'x'] ignore missing %%}", "{%% import %s as m %%}", "{%% from %s import a %%}",
+           "{%% macro m(a=%s) %%}{%% endmacro %%}", "{%% macro m(a, b=%s) %%}{{ b }}{%% endmacro %%}{{ m(1) }}",
+           "{%% call(a=%s) f() %%}{%% endcall %%}", "{%% call(a, b=%s) f() %%}{{ a }}{%% endcall %%}", "{%% call f(%s) %%}{%% endcall %%}",
+           "{%% call f(k=%s) %%}{%% endcall %%}", "{%% call f() %%}{{ %s }}{%% endcall %%}", "{%% autoescape %s %%}{%% endautoescape %%}",
+           "{%% macro m() %%}{{ caller(%s) }}{%% endmacro %%}", "{%% block bb scoped %%}{{ %s }}{%% endblock %%}",
+           "{%% block bc %%}{{ %s }}{%% endblock %%}", "{%% do %s %%}", "{%% trans v=%s %%}{{ v }}{%% endtrans %%}",
+           "{%% trans n=%s %%}a{%% pluralize %%}b{%% endtrans %%}", "{%% extends %s %%}", "{%% if x %%}{%% extends %s %%}{%% endif %%}",
+           "{{ x|map(%s)|list }}", "{{ x|select(%s)|list }}", "{{ %s|f }}", "{{ %s is f }}", "{%% set %s = 1 %%}", "{%% for %s in x %%}{%% endfor %%}"]
+    WRAPS = ["%s", "{%% for q in y %%}%s{%% endfor %%}", "{%% for q in y %%}{%% else %%}%s{%% endfor %%}", "{%% for q in y recursive %%}%s{%% endfor %%}",
+             "{%% macro mm() %%}%s{%% endmacro %%}{{ mm() }}", "{%% call g() %%}%s{%% endcall %%}", "{%% block ba %%}%s{%% endblock %%}",
+             "{%% with z = 1 %%}%s{%% endwith %%}", "{%% filter upper %%}%s{%% endfilter %%}", "{%% set s %%}%s{%% endset %%}",
+             "{%% if y %%}%s{%% else %%}%s{%% endif %%}", "{%% autoescape true %%}%s{%% endautoescape %%}",
+             "{%% for q in y %%}{%% macro mm() %%}%s{%% endmacro %%}{%% endfor %%}", "{%% block ba scoped %%}{%% for q in y %%}%s{%% endfor %%}{%% endblock %%}"]
+    n_pos = 0
+    for wi, w in enumerate(WRAPS):
+        for pi, pos in enumerate(POS):
+            inner = pos % "uniq"
+            if "bb" in inner or "bc" in inner or "extends" in inner:
+                if "block" in w or "macro" in w or "call" in w:
+                    continue
+            src = w.replace("%s", inner.replace("%", "%%")) % () if w.count("%s") != 1 else w % inner
+            for cfgname in (("ext", "async", "sandbox") if ctx.tier != "quick" or (wi + pi) % 3 == 0 else ("ext",)):
+                if cfgname != "ext" and ("do " in inner or "trans" in inner):
+                    continue
+                work.append((cfgname, src))
+                n_pos += 1
+    ctx.count("oracle_name_in_every_expression_position", n_pos)
     work += PROBES
     ctx.count("oracle_exhaustive", n_exh)
-    ctx.count("oracle_generated_and_mutated", len(work) - n_exh - len(PROBES) - n_uni - n_res)  # (v) counted separately below
+    ctx.count("oracle_generated_and_mutated", len(work) - n_exh - len(PROBES) - n_uni - n_res - n_const - n_pos)  # (v) counted separately below
     ctx.count("oracle_probes", len(PROBES))
     chunks = [work[i:i + 400] for i in range(0, len(work), 400)]
     t0 = time.time()
@@ -591,7 +675,7 @@ def oracle(ctx):
     ctx.evaluations += len(work)
     starts = ("{{", "{%", "{#", "<%", "<!--", "$%", "${", "$#", "#")
     ctx.nontrivial.update(("o", c, s) for c, s in seen if any(x in s for x in starts))
-    ctx.samples.append({"config": "ext", "source": PROBES[7][1], "outcome": "TemplateSyntaxError (line 1)"})
+    ctx.samples.append({"config": "ext", "source": PROBES[8][1], "outcome": "TemplateSyntaxError (line 1)"})
     ctx.extra["oracle_wall_s"] = round(time.time() - t0, 1)
 
 
